@@ -32,6 +32,7 @@ func init() {
 			{Name: "seq-exhaustive", N: core.TierN(9, 81), Batch: 3, Run: c02SeqExhaustive},
 			{Name: "range-pkg", N: core.TierN(400, 4000), Batch: 30, Run: c02RangePkg},
 			{Name: "range-buffer", N: core.TierN(300, 3000), Batch: 20, Run: c02RangeBuffer},
+			{Name: "range-buffer-faults", N: core.TierN(150, 1500), Batch: 25, Run: c02RangeBufferFaults},
 		},
 	})
 }
@@ -499,4 +500,94 @@ func c02RangeBuffer(c *core.Ctx) {
 	if c.Index < 1 {
 		c.SetHistory(desc)
 	}
+}
+
+// c02RangeBufferFaults: Buffer.Range whose callback returns false / panics / cancels the context at step k: what is
+// committed and what the next read returns.
+func c02RangeBufferFaults(c *core.Ctx) {
+	b := newBuffer(cleanerSpec{}, core.Pick(c.Rng, 0, 50*time.Microsecond), nil)
+	defer b.Close()
+	cons, err := b.NewConsumer()
+	if err != nil {
+		c.Violate("newconsumer-error", "%v", err)
+		return
+	}
+	defer cons.Rollback()
+	n := 1 + c.Rng.IntN(8)
+	vals := make([]interface{}, n)
+	for i := range vals {
+		vals[i] = i
+	}
+	b.Put(context.Background(), vals...)
+	mode := core.Pick(c.Rng, "false", "panic", "cancel")
+	k := c.Rng.IntN(n)
+	ctx, cancel := context.WithCancel(context.Background())
+	defer cancel()
+	var visited []int
+	var rerr error
+	var pv any
+	done := core.Go(func() {
+		pv = core.Recover(func() {
+			rerr = b.Range(ctx, cons, func(index int, value interface{}) bool {
+				v, _ := value.(int)
+				visited = append(visited, v)
+				if index == k {
+					switch mode {
+					case "false":
+						return false
+					case "panic":
+						panic("deliberate callback panic")
+					case "cancel":
+						cancel()
+					}
+				}
+				return true
+			})
+		})
+	})
+	desc := fmt.Sprintf("Buffer.Range n=%d mode=%s k=%d", n, mode, k)
+	if !core.AwaitDone(done, 10000) {
+		c.Violate("buffer-range-blocked", "%s did not return", desc)
+		c.SetDump(core.DumpAll())
+		return
+	}
+	desc += fmt.Sprintf(" visited=%v err=%v panic=%v", visited, rerr, pv)
+	wantVisited := k + 1
+	wantNext := k + 1 // false and cancel: value k is committed, Range stops
+	switch mode {
+	case "panic":
+		wantNext = k // the in-flight value was rolled back
+		if pv == nil {
+			c.Violate("range-panic", "the callback's panic did not propagate; %s", desc)
+		}
+	case "cancel":
+		if k < n-1 && rerr == nil {
+			c.Violate("range-error", "the context was cancelled mid-range but Range returned nil; %s", desc)
+		}
+	case "false":
+		if rerr != nil {
+			c.Violate("range-error", "Range returned %v after the callback returned false; %s", rerr, desc)
+		}
+	}
+	if mode != "panic" && pv != nil {
+		c.Violate("range-panic", "unexpected panic; %s", desc)
+	}
+	if len(visited) != wantVisited {
+		c.Violate("buffer-range-run", "visited %d values, want %d; %s", len(visited), wantVisited, desc)
+	}
+	if d, ok := b.Diff(cons); !ok || d != n-wantNext {
+		c.Violate("buffer-range-position", "after Range Diff=(%d,%v), want %d (next read must be value %d); %s", d, ok, n-wantNext, wantNext, desc)
+	}
+	if wantNext < n {
+		gctx, gcancel := context.WithTimeout(context.Background(), 5*time.Second)
+		v, gerr := cons.Get(gctx)
+		gcancel()
+		if gerr != nil || v != wantNext {
+			c.Violate("range-next-read", "after Range the next Get returned (%v, %v), want %d; %s", v, gerr, wantNext, desc)
+		}
+	}
+	c.Op("range", 1)
+	c.Op("range_callback", len(visited))
+	c.Nontrivial()
+	c.Sig("bufrangefault", n, mode, k)
 }
